@@ -9,6 +9,7 @@ package main
 // out:  {"before": [ids], "after": [ids], "waited": bool, "start_ms": .., "granted_after_ms": .., "end_ms": ..} (ms relative to the instant)
 
 import (
+	"encoding/json"
 	"fmt"
 	"sort"
 	"sync"
@@ -238,6 +239,117 @@ func init() {
 		}
 		if lerr != nil {
 			out["load_err"] = lerr.Error()
+		}
+		return out
+	})
+}
+
+// kind "c07.writewait": a write with a relative ttl that has to wait for the state's lock across a second boundary (the lock is held
+// by another Add whose storage write is slow). The item's expiry instant is fixed once, when it is written: what the live state
+// holds and what storage holds (and a reload will serve) is the same instant.
+//
+// case: {"state": "indexed"|"linear", "hold_ms": n}
+// out:  {"mem": expires in memory, "store": expires in the stored document, "waited_ms": how long the write took}
+type slowAddStore struct {
+	core.Storage
+	mu      sync.Mutex
+	slowKey string
+	entered chan bool
+	release chan bool
+}
+
+func (g *slowAddStore) Add(ctx *core.Context, loc string, p *core.Pair) error {
+	g.mu.Lock()
+	slow := g.slowKey != "" && string(p.K) == g.slowKey
+	if slow {
+		g.slowKey = ""
+	}
+	g.mu.Unlock()
+	if slow {
+		close(g.entered)
+		<-g.release
+	}
+	return g.Storage.Add(ctx, loc, p)
+}
+
+func init() {
+	register("c07.writewait", func(c map[string]interface{}) interface{} {
+		stateKind, _ := c["state"].(string)
+		hold, _ := c["hold_ms"].(float64)
+		if hold == 0 {
+			hold = 1100
+		}
+		ctxA, ctxB := newCtx(), newCtx()
+		mem, _ := core.NewMemStorage(ctxA)
+		gs := &slowAddStore{Storage: mem, slowKey: "blocker", entered: make(chan bool), release: make(chan bool)}
+		var state core.State
+		var err error
+		if stateKind == "linear" {
+			state, err = core.NewLinearState(ctxA, "ww", gs)
+		} else {
+			state, err = core.NewIndexedState(ctxA, "ww", gs)
+		}
+		if err != nil {
+			return map[string]interface{}{"err": "setup", "msg": err.Error()}
+		}
+		loc, err := core.NewLocation(ctxA, "ww", state, nil)
+		if err != nil {
+			return map[string]interface{}{"err": "setup", "msg": err.Error()}
+		}
+		ctl := core.DefaultControl()
+		ctl.Verbosity = core.NOTHING
+		loc.SetControl(ctl)
+		doneA := make(chan error, 1)
+		go func() {
+			_, err := loc.AddFact(ctxA, "blocker", core.Map{"k": 1})
+			doneA <- err
+		}()
+		select {
+		case <-gs.entered:
+		case <-time.After(5 * time.Second):
+			return map[string]interface{}{"err": "setup", "msg": "the blocking write never reached storage"}
+		}
+		// the blocker sits in Store.Add; start the write under test a little before a second boundary
+		now := time.Now()
+		toBoundary := time.Duration(1e9 - int64(now.Nanosecond()))
+		if toBoundary > 300*time.Millisecond {
+			time.Sleep(toBoundary - 300*time.Millisecond)
+		}
+		t0 := time.Now()
+		doneB := make(chan error, 1)
+		go func() {
+			// (straight to the state: Location.AddFact first asks the state for its size, which would wait for the lock as well)
+			ctxB.SetLoc(loc)
+			_, err := state.Add(ctxB, "x", core.Map{"k": 2, "ttl": "1h"})
+			doneB <- err
+		}()
+		time.Sleep(time.Duration(hold) * time.Millisecond)
+		close(gs.release)
+		if err := <-doneA; err != nil {
+			return map[string]interface{}{"err": "blocker", "msg": err.Error()}
+		}
+		select {
+		case err := <-doneB:
+			if err != nil {
+				return map[string]interface{}{"err": "write", "msg": err.Error()}
+			}
+		case <-time.After(5 * time.Second):
+			return map[string]interface{}{"err": "hang"}
+		}
+		waited := time.Since(t0).Milliseconds()
+		got, err := state.Get(newCtx(), "x")
+		if err != nil {
+			return map[string]interface{}{"err": "get", "msg": err.Error()}
+		}
+		out := map[string]interface{}{"mem": got["expires"], "waited_ms": waited, "started_ms_into_second": t0.Nanosecond() / 1e6}
+		pairs, _ := mem.Load(newCtx(), "ww")
+		for _, p := range pairs {
+			if string(p.K) == "x" {
+				var doc map[string]interface{}
+				if err := json.Unmarshal(p.V, &doc); err == nil {
+					out["store"] = doc["expires"]
+				}
+			}
 		}
 		return out
 	})
